@@ -29,6 +29,14 @@ def gen_blake(R, b, maxkey, depth, lens):
     return R.generate("Blake2Ctx", cfg)
 
 
+def gen_reuse(R, module, name, consts, invs):
+    """update{0,2} R update{0,2} finalize (ReuseShape of the context machines)"""
+    c = dict(consts)
+    c.update({"MaxOps": 6, "NCtx": 1, "Gen": "TRUE"})
+    cfg = hc.write_cfg(R, "GENR_" + name, c, invs + ["EmitReuse"], constraints=["ReuseShape"])
+    return R.generate(module, cfg)
+
+
 def run(R):
     thorough = R.tier == "thorough"
     # ---- design level
@@ -65,6 +73,35 @@ def run(R):
         bases = [{"alg": alg, "api": "dyn", "outlen": mo}, {"alg": alg, "api": "const", "outlen": 32}, {"alg": alg, "api": "dyn", "outlen": 1},
                  {"alg": alg, "api": "const", "outlen": 20}]
         use(bs, bases, per_alg, "blake2")
+    # ---- reuse matrix: what the context held when it was re-initialised x what it is fed afterwards; all of it in the thorough tier,
+    # a seeded part per variant in the quick tier.  BLAKE2 includes bit lengths that are not a multiple of 8 (const-generic contexts).
+    nre = 0
+
+    def use_part(behs, bases, frac, label):
+        nonlocal nre
+        for base in bases:
+            for h in behs:
+                if frac < 1 and R.rng.random() >= frac:
+                    continue
+                hs.append(hc.concretise(R, h, base))
+                nre += 1
+                R.count((label, base.get("alg"), base.get("api"), base.get("bits", base.get("outlen")), hc.signature(h)))
+    fr = 1.0 if thorough else 0.04
+    r64 = gen_reuse(R, "MDCtx", "MD64", {"B": 64, "LB": 8, "MaxFed": 5 * 64, "Lens": hc.tla_set([0, 1, 55, 56, 64, 65])}, ["InvBuffer", "InvDigest"])
+    use_part(r64, [{"alg": a} for a in ["sha1", "ripemd160", "sha224", "sha256"]], fr, "reuse-md64")
+    r128 = gen_reuse(R, "MDCtx", "MD128", {"B": 128, "LB": 16, "MaxFed": 5 * 128, "Lens": hc.tla_set([0, 1, 111, 112, 128, 129])}, ["InvBuffer", "InvDigest"])
+    use_part(r128, [{"alg": a} for a in ["sha384", "sha512", "sha512_224", "sha512_256"]], fr, "reuse-md128")
+    for alg, (rate, ds, dl) in hc.SPONGE.items():
+        rs = gen_reuse(R, "SpongeCtx", "Sp%d_%d" % (rate, ds), {"Rate": rate, "DSLEN": ds, "DLen": dl, "MaxFed": 5 * rate, "Lens": hc.tla_set([0, 1, rate - 1, rate, rate + 1])},
+                       ["InvAbsorb", "InvDigest"])
+        use_part(rs, [{"alg": alg}], fr * 0.6, "reuse-sponge")
+    for alg, (b, mo, mk) in hc.BLAKE.items():
+        rb = gen_reuse(R, "Blake2Ctx", "B2_%d" % b, {"B": b, "M": 256, "MaxFed": 5 * b, "Keys": hc.tla_set([0, 1, mk]), "Lens": hc.tla_set([0, 1, b - 1, b, b + 1])}, ["InvDigest", "InvBuf"])
+        oddbits = [505, 250, 9] if alg == "blake2b" else [255, 250, 9]
+        bases = [{"alg": alg, "api": "dyn", "outlen": mo}, {"alg": alg, "api": "const", "outlen": 32}, {"alg": alg, "api": "dyn", "outlen": 3}] + \
+                [{"alg": alg, "api": "const", "bits": n} for n in oddbits]
+        use_part(rb, bases, fr * 0.12, "reuse-blake2")
+    R.extra["reuse_matrix_histories"] = nre
     R.extra["distinct_branch_signatures_generated"] = sigs
     R.rule = ("behaviours printed by TLC from the context machines at the real block sizes (depth %d, 2 context slots); per variant one behaviour "
               "per newly covered (op,branch) and (branch,next branch) pair, then a seeded sample up to %d; bytes = PRNG(seed); distinct = (variant, api, "
